@@ -24,6 +24,7 @@ import (
 	"errors"
 	"net/http"
 	"net/http/httputil"
+	"slices"
 	"strings"
 	"time"
 
@@ -65,7 +66,42 @@ func (rt *RoundTripper) cachedResponse(req *http.Request) (*http.Response, error
 		return nil, ErrNoCacheEntry
 	}
 
-	return http.ReadResponse(bufio.NewReader(bytes.NewReader(respDump)), req)
+	resp, err := http.ReadResponse(bufio.NewReader(bytes.NewReader(respDump)), req)
+	if err != nil {
+		return nil, err
+	}
+
+	// a stored response, which varies by header fields of the request (RFC 7234, section 4.1), is
+	// only usable for a request presenting the same values for these fields
+	for _, name := range variedBy(resp) {
+		if resp.Header.Get(variedHeaderPrefix+name) != strings.Join(req.Header.Values(name), ",") {
+			resp.Body.Close()
+
+			return nil, ErrNoCacheEntry
+		}
+
+		resp.Header.Del(variedHeaderPrefix + name)
+	}
+
+	return resp, nil
+}
+
+const variedHeaderPrefix = "X-Heimdall-Varied-"
+
+// variedBy returns the canonical names of the request header fields listed in the Vary header
+// of the response.
+func variedBy(resp *http.Response) []string {
+	var names []string
+
+	for _, value := range resp.Header.Values("Vary") {
+		for _, name := range strings.Split(value, ",") {
+			if name = strings.TrimSpace(name); len(name) != 0 {
+				names = append(names, http.CanonicalHeaderKey(name))
+			}
+		}
+	}
+
+	return names
 }
 
 func (rt *RoundTripper) cacheResponse(req *http.Request, resp *http.Response) {
@@ -89,7 +125,22 @@ func (rt *RoundTripper) cacheResponse(req *http.Request, resp *http.Response) {
 		return
 	}
 
+	// remember the values of the header fields the response varies by together with the response
+	varied := variedBy(resp)
+	if slices.Contains(varied, "*") {
+		return
+	}
+
+	for _, name := range varied {
+		resp.Header.Set(variedHeaderPrefix+name, strings.Join(req.Header.Values(name), ","))
+	}
+
 	respDump, err := httputil.DumpResponse(resp, true)
+
+	for _, name := range varied {
+		resp.Header.Del(variedHeaderPrefix + name)
+	}
+
 	if err != nil {
 		return
 	}
